@@ -386,7 +386,11 @@ class Gen:
                     s['subcat'] = g.rng.sample(ids, g.rng.randint(1, len(ids)))
             if local_senses and g.chance(g.p['p_lexframe_senses']):
                 fr = g.rng.choice(lex['frames'])
-                fr['senses'] = [g.rng.choice(local_senses)['id']]
+                pool = local_senses
+                ext_senses = [s for s in senses if s.get('external')]
+                if ext_senses and g.chance(0.5):
+                    pool = ext_senses      # an extension gives a frame to a sense of its base
+                fr['senses'] = [g.rng.choice(pool)['id']]
             if local_senses and frame_pool and g.chance(g.p.get('p_frame_no_id', 0.0)):
                 lex['frames'].append({'subcategorizationFrame': frame_pool.pop(),
                                       'senses': [g.rng.choice(local_senses)['id']]})
